@@ -3,6 +3,7 @@ package rules
 import (
 	"fmt"
 	"go/token"
+	"go/types"
 	"math"
 	"strings"
 
@@ -122,7 +123,8 @@ func r11suciX(c *core.Ctx) {
 				continue
 			}
 			cell := func(i int) core.BitVec {
-				v := o.Mem.Load(fmt.Sprintf("%s[%d]", buf.Path, i), nil)
+				// typed load: an octet of a made buffer that nothing wrote is zero
+				v := o.Mem.Load(fmt.Sprintf("%s[%d]", buf.Path, i), types.Typ[types.Uint8])
 				if v.K != core.AInt {
 					return nil
 				}
